@@ -87,7 +87,8 @@ theorem loadValue_type (m : Mode) (i : List Nat) (st : Store) (t : Nat) (ht : ge
       else if t = U64_META then loadNum 2 i
       else if t = F64_META then loadNum 3 i
       else if t = STRING_META then
-        if isValue i then .ok (wrap 4 (.blob (idxValue i)))
+        if isValue i then
+          .ok (wrap 4 (.blob (if validUtf8 (idxValue i) then idxValue i else utf8Lossy (idxValue i))))
         else loadOut m 4 .str i st
       else if t = VEC_I64_META then loadOut m 5 (.vec .i64) i st
       else if t = VEC_U64_META then loadOut m 6 (.vec .u64) i st
@@ -189,7 +190,7 @@ theorem store_load (v : Val) (st : Store) (hw : st.Wf) (hn : st.next < U64)
             storeInlineOr_inline STRING_META (by decide) bs (ser (.blob bs)) st hb
           rw [e1] at h; simp at h; obtain ⟨rfl, rfl⟩ := h
           rw [loadValue_type _ _ _ _ e2]
-          simp [STRING_META, F64_META, U64_META, I64_META, BYTES_META, e3, e4, wrap]
+          simp [STRING_META, F64_META, U64_META, I64_META, BYTES_META, e3, e4, wrap, hu]
         · obtain ⟨i', e1, e2, e3, e4⟩ :=
             storeInlineOr_out STRING_META (by decide) bs (ser (.blob bs)) st (by omega) hw hn
           rw [e1] at h; simp at h; obtain ⟨rfl, rfl⟩ := h
